@@ -10,10 +10,10 @@ import (
 )
 
 // txBlock builds a block with one transaction whose body is a map {0: leaf, 1: outputs, 2:
-// leaf}: the body map head and the outputs array head use the given forms, each output is a
-// small array. Returns the block bytes and the outputs' ranges.
+// leaf}: the body map head and the outputs array head use the given forms, each output has one of
+// the four wire shapes of an output (definite/indefinite array/map). Returns the block bytes and the outputs' ranges.
 func txBlock(mapForm, outForm, nOut int) ([]byte, []ghost.Range, ghost.Range) {
-	data := sym.Bytes("blk", 1+1+(1+9+2+2+9+3*nOut+1+2+1)+2+1+2)
+	data := sym.Bytes("blk", 1+1+(1+9+2+2+9+4*nOut+1+2+1)+2+1+2)
 	off := ghost.PutHead(data, 0, 4, ghost.FormImm, 4)
 	off += ghost.Fixed(data, off, "hdr", 0)
 	// bodies array with one body
@@ -30,7 +30,7 @@ func txBlock(mapForm, outForm, nOut int) ([]byte, []ghost.Range, ghost.Range) {
 	off += ghost.PutHead(data, off, 4, outForm, nOut)
 	outs := make([]ghost.Range, nOut)
 	for j := 0; j < nOut; j++ {
-		l := ghost.Fixed(data, off, "out"+string(rune('0'+j)), 5)
+		l := ghost.Output(data, off, "out"+string(rune('0'+j)))
 		outs[j] = ghost.Range{Off: off, Len: l}
 		off += l
 	}
